@@ -1,9 +1,9 @@
 CONSTANTS
   N = 2
   T = 2
-  MaxReq = 3
+  MaxReq = 2
   MaxTime = 6
-  Bodies <- McBodiesSmall
+  Bodies <- McBodies
   Strangers = {0}
   EraseFirst = TRUE
   KeepOnResponse = FALSE
